@@ -12,7 +12,7 @@
 From Coq Require Import ZArith List Bool.
 From TV Require Import model.Tak model.Road model.PySem spec.Rules spec.MoveSpec.
 From TV Require Import proofs.Generator proofs.Invariant proofs.GameGenEq proofs.GameGenCor.
-From TV Require spec.RoadSpec.
+From TV Require spec.RoadSpec model.RoadPy.
 From TV Require gen.GameGen.
 Import ListNotations.
 Open Scope Z_scope.
@@ -47,9 +47,28 @@ Proof. exact gen_table_eq. Qed.
 (* moves.ALL_SLIDES as built by the module-level loop over _compute_slides *)
 Theorem T01_gen_all_slides_eq : GameGen.ALL_SLIDES = Ok (map all_slides (seq 0 9)).
 Proof. exact gen_all_slides_eq. Qed.
-(* Position.winner, given has_road (which is not translated: it is Road.has_road); no guard *)
-Theorem T01_gen_winner_eq : forall p, GameGen.winner p = Ok (Road.winner p).
+(* Position._walk: the translated work-list loop IS the statement-by-statement model of model/RoadPy.v for every fuel and
+   every state of `seen` / `q` (walk_result: inl = the loop ended (False), inr b = `return b`) *)
+Theorem T01_gen_walk_loop_eq : forall p c horiz, shape p -> forall fuel seen q,
+  res_map walk_result (GameGen._walk_while1 fuel p c horiz seen q) = embed_fuel (RoadPy.walk_loop fuel p c horiz seen q).
+Proof. exact gen_walk_loop_eq. Qed.
+(* _walk with the fuel the translator gives it, 5*size^2 + len(seeds) + 1 *)
+Theorem T01_gen_walk_eq : forall p seeds c horiz, shape p ->
+  GameGen._walk p seeds c horiz =
+  embed_fuel (RoadPy.walk_py (Z.to_nat (5 * size p * size p + zlen seeds + 1)) p seeds c horiz).
+Proof. exact gen_walk_eq. Qed.
+(* Position.has_road, translated (is_road, _walk, the four searches with short-circuit `or`): never out of fuel, no
+   IndexError, and the answer of the closure model - on every position with a size^2 board of size >= 1 *)
+Theorem T01_gen_has_road_eq : forall p, RoadSpec.wf_pos p -> GameGen.has_road p = Ok (Road.has_road p).
+Proof. exact gen_has_road_eq. Qed.
+(* ... and of size 0 (road_ok p := 0 <= size p /\ shape p) *)
+Theorem T01_gen_has_road_ok : forall p, road_ok p -> GameGen.has_road p = Ok (Road.has_road p).
+Proof. exact gen_has_road_ok. Qed.
+(* Position.winner now calls the TRANSLATED has_road *)
+Theorem T01_gen_winner_eq : forall p, RoadSpec.wf_pos p -> GameGen.winner p = Ok (Road.winner p).
 Proof. exact gen_winner_eq. Qed.
+Theorem T01_gen_winner_ok : forall p, road_ok p -> GameGen.winner p = Ok (Road.winner p).
+Proof. exact gen_winner_ok. Qed.
 (* Position.flat_counts / flats_winner; no guard *)
 Theorem T01_gen_flat_counts_eq : forall p,
   GameGen.flat_counts p = Ok (flat_count_of p White, flat_count_of p Black).
@@ -94,6 +113,10 @@ Theorem T01_gen_inv_step : forall cfg p m p',
 Proof. exact gen_inv_step. Qed.
 Theorem T01_gen_wf_step : forall p m p', wf_pos p -> GameGen.move p m = Ok p' -> wf_pos p'.
 Proof. exact gen_wf_step. Qed.
+(* C02: the translated has_road answers the declarative road question (both roads -> the player who just moved ...) *)
+Theorem T01_gen_has_road_verdict : forall p, RoadSpec.wf_pos p ->
+  forall o, RoadSpec.road_verdict p o <-> GameGen.has_road p = Ok o.
+Proof. exact gen_has_road_verdict. Qed.
 (* C02: the translated winner reports exactly the outcome the property describes *)
 Theorem T01_gen_winner_outcome : forall p, RoadSpec.wf_pos p ->
   forall r, RoadSpec.outcome p r <-> GameGen.winner p = Ok r.
